@@ -198,41 +198,6 @@ step_harness!(c19_step_n3_d2_connect, 3, 2, 0, 3);
 step_harness!(c19_step_n3_d2_disconnect, 3, 2, 1, 3);
 step_harness!(c19_step_n3_d3_connect, 3, 3, 0, 3);
 
-/// Two-step refill after a reorg: N=2, one disconnection, then two connections (the second one evicts).
-#[kani::proof]
-#[kani::stub(bitcoin::block::Header::block_hash, crate::verif_stubs::block_hash_model)]
-#[kani::unwind(7)]
-fn c19_reorg_refill_n2() {
-    const N: usize = 2;
-    let tip0: u32 = kani::any();
-    kani::assume(tip0 >= 1 && tip0 < u32::MAX - 4);
-    let mut idx: TxIndex<K8, V8> = TxIndex::verif_empty(N, tip0);
-    let mut s = Spec { ids: [0; MAXB], bits: [0; MAXB], len: 0, base: tip0 - 1 };
-    let mut n = 1u32;
-    while n <= 2 {
-        let bits = any_bits::<2>(&s, N);
-        idx.update(hdr(n), &block_data::<2>(n as u8, bits));
-        s.ids[s.len] = n;
-        s.bits[s.len] = bits;
-        s.len += 1;
-        n += 1;
-    }
-    idx.remove_disconnected_block(&block_hash_model(&hdr(2)));
-    s.len -= 1;
-    let mut n = 10u32;
-    while n <= 11 {
-        let bits = any_bits::<2>(&s, N);
-        idx.update(hdr(n), &block_data::<2>(n as u8, bits));
-        s.ids[s.len] = n;
-        s.bits[s.len] = bits;
-        s.len += 1;
-        n += 1;
-    }
-    check::<2>(&idx, &s, N, &[1, 2]);
-    kani::cover!(true, "reach");
-    std::mem::forget(idx);
-}
-
 /// K3: the production key types are what the property says: `Locator` = first 16 bytes of the id,
 /// `Txid` = the id itself.
 #[kani::proof]
